@@ -97,6 +97,25 @@ type CC interface {
 }
 `
 
+// two files use the same alias for two different packages
+const cliSrcM1 = `package cli
+
+import model "example.com/m/a/foo"
+
+type M1 interface {
+	One(x model.T) model.T
+}
+`
+
+const cliSrcM2 = `package cli
+
+import model "example.com/m/b/foo"
+
+type M2 interface {
+	Two(y model.T) model.T
+}
+`
+
 const cliSub = "package sub\n\ntype T struct{}\n"
 
 type treeEntry struct {
@@ -222,6 +241,8 @@ func (fx *Fixture) newSandbox(work string, version int) *e5Sandbox {
 	writeFile(filepath.Join(pkg, "b.go"), cliSrcB)
 	writeFile(filepath.Join(pkg, "zz.go"), cliSrcZ)
 	writeFile(filepath.Join(pkg, "zy.go"), cliSrcY)
+	writeFile(filepath.Join(pkg, "m1.go"), cliSrcM1)
+	writeFile(filepath.Join(pkg, "m2.go"), cliSrcM2)
 	writeFile(filepath.Join(pkg, "c.go"), cliSrcC)
 	// bystanders next to the usual -out names: a run must not touch them
 	writeFile(filepath.Join(pkg, "out_moq_test.go.tmp"), "bystander\n")
@@ -314,6 +335,12 @@ func e5Cases(thorough bool) []e5Case {
 		for _, rm := range []bool{false, true} {
 			out = append(out, e5Case{Desc: "from module root", Version: 1, OutMode: "from-root", Rm: rm, Flags: append(append([]string{}, fl...), "-pkg", "gen"), SrcDir: "./s/cli", Ifaces: []string{"A", "B"}, ExpectFail: false})
 			out = append(out, e5Case{Desc: "from module root, bad argument", Version: 1, OutMode: "from-root", Rm: rm, Flags: fl, SrcDir: "./s/cli", Ifaces: []string{"A", "Nope"}, ExpectFail: true, Why: "unknown type name"})
+		}
+	}
+	// a bad argument whose mock name repeats the mock name of an earlier good argument
+	for _, ifs := range [][]string{{"A", "Nope:AMock"}, {"A:Custom", "Nope:Custom"}, {"A", "B", "S:BMock"}, {"A:M1", "B:M2", "Nope:M1"}} {
+		for _, om := range []string{"", "new", "existing"} {
+			out = append(out, e5Case{Desc: "bad argument reusing an earlier mock name", Version: 1, OutMode: om, Flags: nil, SrcDir: ".", Ifaces: ifs, ExpectFail: true, Why: "unknown type name / struct type"})
 		}
 	}
 	// an unknown -fmt value means gofmt: unformattable output must still be rejected
